@@ -200,6 +200,20 @@ func (a *Act) intrinsic(name string, fv FuncV, args []Value) (Value, bool) {
 		return nilPtr(), true
 	case "(*time.Timer).Stop":
 		return True, true
+	case "strings.EqualFold":
+		// decided on concrete strings and on choices among concrete strings
+		x, y := args[0].(StrV), args[1].(StrV)
+		r, ok := mapStrLeavesTerm(strID(x), func(xs string) *Term {
+			r2, ok2 := mapStrLeavesTerm(strID(y), func(ys string) *Term { return BoolC(strings.EqualFold(xs, ys)) })
+			if !ok2 {
+				panic(unsupported("strings.EqualFold on a symbolic string"))
+			}
+			return r2
+		})
+		if !ok {
+			panic(unsupported("strings.EqualFold on a symbolic string"))
+		}
+		return r, true
 	case "strings.ToUpper":
 		s0 := args[0].(StrV)
 		if s0.conc {
@@ -443,6 +457,42 @@ func (a *Act) intrinsic(name string, fv FuncV, args []Value) (Value, bool) {
 		a.store(p, nvl)
 		a.atomicOp = false
 		return nvl, true
+	case "sync/atomic.CompareAndSwapInt32", "sync/atomic.CompareAndSwapUint32":
+		// Between the value the caller read earlier and this operation another goroutine may have
+		// updated the cell atomically (interference: +1 or -1, the updates the code makes to its
+		// counters): then the comparison fails.  The ghost sum of interference per cell is what the
+		// harness adds to its expectation (verifCasDelta), so that a correct retry loop passes and a
+		// lost update shows.  Natively verifCAS32 applies the same interference before the real CAS.
+		p := args[0].(PtrV)
+		a.atomicOp = true
+		cur := a.load(p).(*Term)
+		if !in.isHarnessFn(a.fn) && len(p.alts) == 1 {
+			interf := in.named("casInterfered@", BoolSort)
+			up := in.named("casUp@", BoolSort)
+			d := Ite(interf, Ite(up, BV(32, 1), BV(32, 0xffffffff)), BV(32, 0))
+			cur = BvBin("bvadd", cur, d)
+			k := fmt.Sprintf("%d:%v", p.alts[0].obj, p.alts[0].path)
+			if in.casDelta == nil {
+				in.casDelta = map[string]*Term{}
+			}
+			prev, ok := in.casDelta[k]
+			if !ok {
+				prev = BV(32, 0)
+			}
+			in.casDelta[k] = BvBin("bvadd", prev, Ite(a.g, d, BV(32, 0)))
+		}
+		okc := Eq(cur, args[1].(*Term))
+		a.store(p, Ite(okc, args[2].(*Term), cur))
+		a.atomicOp = false
+		return okc, true
+	case "verifCasDelta":
+		p := args[0].(PtrV)
+		if len(p.alts) == 1 {
+			if d, ok := in.casDelta[fmt.Sprintf("%d:%v", p.alts[0].obj, p.alts[0].path)]; ok {
+				return d, true
+			}
+		}
+		return BV(32, 0), true
 	case "sync/atomic.LoadInt32", "sync/atomic.LoadUint32":
 		a.atomicOp = true
 		r := a.load(args[0].(PtrV))
@@ -628,7 +678,7 @@ func (a *Act) intrinsic(name string, fv FuncV, args []Value) (Value, bool) {
 		}
 		return nil, true
 	case "verifGuardedBy":
-		// verifGuardedBy(&x.field, &x.mu, "name"): every write to the cell by the code under test must hold the mutex
+		// verifGuardedBy(&x.field, &x.mu, "name"): every non-atomic write to the cell by the code under test must hold the mutex (write mode)
 		unwrap := func(v Value) PtrV {
 			if iv, ok := v.(IfaceV); ok && len(iv.alts) == 1 {
 				v = iv.alts[0].val
